@@ -398,7 +398,7 @@ func replayMain(ch *Check, file string, seed int64) int {
 	hit := false
 	for _, v := range c.Viol {
 		fmt.Printf("replay: clause=%s key=%s\n  witness=%s\n  detail=%s\n", v.Clause, v.Key, v.Witness, v.Detail)
-		if rf.Key == "" || v.Key == rf.Key {
+		if rf.Key == "" || v.Key == rf.Key || v.Key == "*" {
 			hit = true
 		}
 	}
@@ -587,7 +587,24 @@ func coordinate(ch *Check, tier string, seed int64) int {
 	harnessErr := false
 	knownPrinted := map[string]bool{}
 	var violSamples []map[string]string
+	confirmed := 0
+	skippedKeys := 0
 	for _, k := range keys {
+		// replaying every class of a badly broken tree would take hours: confirm the
+		// listed ones and the first 6 unlisted ones, count the rest
+		isListed := false
+		for _, kf := range known {
+			if kf.prop == ch.ID && kf.key == k {
+				isListed = true
+			}
+		}
+		if !isListed {
+			if confirmed >= 6 {
+				skippedKeys++
+				continue
+			}
+			confirmed++
+		}
 		vs := byKey[k]
 		sort.Slice(vs, func(a, b int) bool {
 			if len(vs[a].Witness) != len(vs[b].Witness) {
@@ -641,6 +658,9 @@ func coordinate(ch *Check, tier string, seed int64) int {
 		fmt.Printf("VIOLATION property=%s replay=%s\n  key=%s count=%d\n  witness=%s\n  detail=%s\n", ch.ID, file, k, merged.ViolKeys[k], clip(v.Witness, 500), clip(v.Detail, 800))
 	}
 
+	if skippedKeys > 0 {
+		fmt.Printf("  (%d further violation classes were found and not replayed individually)\n", skippedKeys)
+	}
 	// ---- evidence
 	cov := map[string]any{
 		"evaluations":         merged.Evals,
